@@ -80,6 +80,7 @@ func checkC03(c *Check) {
 	}
 
 	// S2: determine L per entry point
+	nEmit := 0
 	Ls := map[string]string{}
 	for _, ep := range eps {
 		evs := perEP[ep.Name()]
@@ -129,6 +130,20 @@ func checkC03(c *Check) {
 						Entry: strings.Join(e.Stack, " > ")}
 					c.Obls = append(c.Obls, o)
 				}
+			case "call-ext":
+				if e.What != "(*github.com/metal-toolbox/auditevent.EventWriter).Write" {
+					continue
+				}
+				nEmit++
+				construct := fmt.Sprintf("%s: emit (EventWriter.Write) in %s", ep.Name(), e.Fn)
+				if L != "" && contains(e.Held, L) {
+					c.OK("S2 emit-inside-critical-section", construct, e.Pos, "held "+strings.Join(e.Held, ","))
+				} else {
+					o := Obl{Rule: "S2 emit-inside-critical-section", Construct: construct, Pos: e.Pos, Verdict: Violated,
+						Fact:  "an event is written outside the delivery's critical section (held: [" + strings.Join(e.Held, ",") + "]): a concurrent delivery can emit events of the same session in between, so the emitted order equals no sequential order of the deliveries",
+						Entry: strings.Join(e.Stack, " > ")}
+					c.Obls = append(c.Obls, o)
+				}
 			case "secondcs":
 				if e.What == L || isTrackerLevelLock(e.What) {
 					c.Bad("S2 one-critical-section", fmt.Sprintf("%s: second acquisition of %s in %s", ep.Name(), e.What, e.Fn), e.Pos, "the delivery is split into two critical sections of "+e.What+" (lock acquired again on a path that already acquired and released it)")
@@ -146,6 +161,13 @@ func checkC03(c *Check) {
 				}
 			}
 			c.Cond(n >= 1, "S2 L-acquired-by-delivery", "sessionTracker."+ep.Name()+" acquires "+L, p.Pos(ep.Pos()), fmt.Sprintf("%d acquisition site(s), at most one per path", n), "no acquisition of L found")
+		}
+	}
+	c.Floor("S2 emit sites inside tracker cones", 3, nEmit)
+	// every emit site of the package lies in a cone
+	for _, es := range EmitSites(p) {
+		if FuncPkgPath(es.Fn) == ModPath+"/"+pkgTracker && !w.Visited[es.Fn] {
+			c.Bad("S2 emit-inside-critical-section", "emit in "+funcDisplayName(es.Fn)+" outside every entry-point cone", p.InstrPos(es.Call), "event written by a function that no locked entry point reaches")
 		}
 	}
 	// same L
